@@ -126,13 +126,16 @@ def load_known(prop):
     if not os.path.exists(p):
         return []
     data = json.load(open(p))
-    return [f for f in data.get("findings", []) if f.get("property") == prop and f.get("status", "open") == "open"]
+    return [f for f in data.get("findings", []) if prop in f.get("properties", [f.get("property")]) and f.get("status", "open") == "open"]
 
 
 def match_known(known, unit_name, vc_name, path):
     for f in known:
         if f.get("obligation") == vc_name and f.get("unit", unit_name) in (unit_name, None):
             pat = f.get("path_contains")
+            anyp = f.get("path_contains_any")
+            if anyp is not None and not any(p in path for p in anyp):
+                continue
             if pat is None or all(p in path for p in ([pat] if isinstance(pat, str) else pat)):
                 return f
     return None
